@@ -348,8 +348,10 @@ class QuantityTableCoordinate(BaseTableCoordinate):
             dwd["world_axis_names"].append(self.names[i] if self.names else None)
             dwd["world_axis_physical_types"].append(self.frame.axis_physical_types[i])
             dwd["world_axis_units"].append(table.unit.to_string())
-            dwd["world_axis_object_components"].append((f"quantity{i}", 0, "value"))
-            dwd["world_axis_object_classes"].update({f"quantity{i}": (u.Quantity, tuple(), {"unit", table.unit.to_string()})})
+            # The key must not clash with that of a dimension dropped from another table.
+            dropped_key = f"quantity_{self.names[i]}" if self.names else f"quantity{i}"
+            dwd["world_axis_object_components"].append((dropped_key, 0, "value"))
+            dwd["world_axis_object_classes"].update({dropped_key: (u.Quantity, tuple(), {"unit": table.unit.to_string()})})
             return
 
         new_components["tables"].append(table[item])
@@ -912,7 +914,8 @@ class MultipleTableCoordinate(BaseTableCoordinate):
         dropped_world_dimensions["world_axis_object_classes"] = dict()
 
         # Combine the dicts on the tables with our dict
-        for lutc in self._table_coords:
+        # Tables that have since been dropped entirely can themselves have dropped dimensions.
+        for lutc in list(self._table_coords) + list(self._dropped_coords):
             for key, value in lutc.dropped_world_dimensions.items():
                 if key == "world_axis_object_classes":
                     dropped_world_dimensions[key].update(value)
